@@ -15763,7 +15763,7 @@ func (p *PathAttributeTunnelEncap) DecodeFromBytes(data []byte, options ...*Mars
 	if err != nil {
 		return err
 	}
-	for len(value) > 4 {
+	for len(value) >= 4 {
 		tlv := &TunnelEncapTLV{}
 		err = tlv.DecodeFromBytes(value)
 		if err != nil {
